@@ -240,14 +240,17 @@ def run_case(case) -> Outcome:
         src = (f"*=0x{org:06x}\n.macro m_say() {{\n.text '{s0}'\n}}\n.macro m_own() {{\n.table 't1.tbl'\n.text '{s3}'\n}}\n.table 't0.tbl'\nm_say()\n{{\n.table 't1.tbl'\nm_say()\n"
                f".for i_0 := 0, 2 {{\n.text '{s1}'\n}}\n}}\nm_say()\nm_own()\n.for i_1 := 0, 2 {{\n.text '{s2}'\n{{\n.table 't1.tbl'\n.text '{s2}'\n}}\nm_say()\n}}\n.text '{s4}'\n"
                f".for i_2 := 0, 2 {{\n.table 't1.tbl'\n.text '{s1}'\n}}\n.text '{s3}'\n.for i_3 := 0, 2 {{\n.if 1 {{\n.table 't1.tbl'\n}}\n.text '{s2}'\n}}\n.text '{s0}'\n"
-               f".scope sc_t {{\n.table 't1.tbl'\n.text '{s4}'\n}}\n.text '{s1}'\nlb_end:\n")
+               f".scope sc_t {{\n.table 't1.tbl'\n.text '{s4}'\n}}\n.text '{s1}'\n{{\n.text '{s0}'\n.table 't1.tbl'\n.text '{s0}'\n}}\n"
+               f".for i_4 := 0, 2 {{\n.text '{s3}'\n.table 't1.tbl'\n.text '{s3}'\n}}\nlb_end:\n")
         E = T.encode
         seq = [("macro under the root table", E(entries, s0)), ("macro under an overriding table", E(other, s0)), ("loop under an overriding table", E(other, s1) * 2),
                ("macro under the root table again", E(entries, s0)), ("macro that loads its own table", E(other, s3)),
                ("loop body with an inner override", (E(entries, s2) + E(other, s2) + E(entries, s0)) * 2), ("root after the expansions", E(entries, s4)),
                ("loop body that loads its own table", E(other, s1) * 2), ("root after a loop that loaded a table", E(entries, s3)),
                ("loop body that loads a table in a taken .if", E(other, s2) * 2), ("root after that loop", E(entries, s0)),
-               ("named scope that loads its own table", E(other, s4)), ("root after the named scope", E(entries, s1))]
+               ("named scope that loads its own table", E(other, s4)), ("root after the named scope", E(entries, s1)),
+               ("text before and after a .table in one block", E(entries, s0) + E(other, s0)),
+               ("text before and after a .table in a loop body (each iteration starts with the outer table)", (E(entries, s3) + E(other, s3)) * 2)]
         expected = b"".join(c for _, c in seq)
         res = driver.assemble_mem(src, files=files)
         out.evals += 1
